@@ -590,6 +590,11 @@ func TestRaceC01(t *testing.T) {
 			b.WriteString("go func() {\nsn = 0\nfor w = 0; w < 10000; w++ {\ntry {\n" + use + "} catch e { }\n}\nwdone <- 1\n}()\n")
 			b.WriteString("sn = 0\nfor w = 0; w < 10000; w++ {\ntry {\n" + use + "} catch e { }\n}\nstopw = true\n<-wdone\n<-wdone\n")
 		}
+		if round%16 == 7 {
+			// a module turned into text (string concatenation, toString) while another goroutine assigns its variables:
+			// module variables are scope variables
+			b.WriteString("module fm { x = 0; y = 1; z = 2 }\nfdone = make(chan int64, 1)\nfstop = false\ngo func() {\nfor fi = 0; !fstop; fi++ { fm.x = fi; fm.y = fi }\nfdone <- 1\n}()\nfn = 0\nfor fj = 0; fj < 40000; fj++ { fn += len(\"\" + fm) + len(toString(fm)) }\nfstop = true\n<-fdone\n")
+		}
 		if round%16 == 5 {
 			// a variable whose address is taken and used by goroutines while the scope that holds it deletes and defines
 			// it again
